@@ -525,7 +525,16 @@ def prove_vc(axioms, hyps, goal):
         if r2.proved:
             return r2, t
     r = prover.check_valid(axioms + list(hyps), goal, rlimit=PYVC_RLIMIT, cvc5_timeout_s=10)
-    return r, t + r.time_s
+    t += r.time_s
+    if not r.proved and r.status != "sat":
+        # last resort: other random seeds of the SMT core on the most promising hypothesis sets (sound: same query)
+        for seed in (1, 2, 3):
+            for sub in (tiers[0], list(hyps)):
+                r2 = prover.check_valid(axioms + sub, goal, rlimit=PYVC_RLIMIT // 3, use_cvc5=False, seed=seed)
+                t += r2.time_s
+                if r2.proved:
+                    return r2, t
+    return r, t
 
 
 def _has_var(e):
@@ -641,13 +650,16 @@ def verify_contracts(contract_files, only=None, program: Program = None, jobs: i
             raise core.CheckerError(f"contract names {q}, which no longer exists in /repo")
     # the VCs of one function are discharged by several workers (each regenerates the VCs -- cheap -- and takes
     # every n-th obligation), so that one function with heavy obligations does not serialise the run
-    shards = {q: (spec.contracts[q].shards if jobs > 1 else 1) for q in quals}
+    shards = {q: spec.contracts[q].shards for q in quals}      # (not a function of `jobs`: the verdicts must not depend on it)
     work = [(list(contract_files), q, P.repo, k, shards[q]) for q in quals for k in range(shards[q])]
-    if jobs > 1 and len(work) > 1:
-        with mp.get_context("fork").Pool(min(jobs, len(work))) as pool:
+    if work:
+        # one fresh process per work item (maxtasksperchild=1): the solver's verdict on a hard VC depends on the names /
+        # ids of the terms, hence on what the process did before; a fresh fork of the parent makes every item start
+        # from the same state whatever else is verified in this run and however the items are scheduled
+        with mp.get_context("fork").Pool(max(1, min(jobs, len(work))), maxtasksperchild=1) as pool:
             results = pool.map(_verify_one, work, chunksize=1)
     else:
-        results = [_verify_one(w) for w in work]
+        results = []
     obligations: List[Obligation] = []
     seen_subset = set()
     for w, r in zip(work, results):
